@@ -2,8 +2,12 @@
     Status of this file: the witnesses below show that the verifier at the pinned commit
     (mirror with strict = false) accepted false claims (defects D2, D3, D4) and that the repaired
     verifier (strict = true, the code in /repo now) rejects exactly those inputs.
-    The unbounded soundness theorem for the repaired mirror is stated as [C03_statement]. *)
-From Utreexo Require Import Model.Verify Spec.Term Spec.Forest Spec.Oracle Proofs.VerifyBasics.
+    The unbounded soundness theorem for the repaired mirror ([C03_sound], free hash algebra, leaves
+    are atoms, up to 2^63 leaves) is proved in Proofs/Soundness.v from the parametric soundness of the
+    hashing loop (Proofs/CalcSound.v), the structure of the reference layout (Proofs/LayoutStruct.v)
+    and the geometry of the position functions (Proofs/UtilsGeom2.v). *)
+From Utreexo Require Import Model.Verify Spec.Term Spec.Forest Spec.Oracle Proofs.VerifyBasics Proofs.LayoutStruct Proofs.Soundness.
+
 Open Scope N_scope.
 
 (** Full statement (free algebra, leaves are atoms): what is to be proved about the repaired
@@ -39,3 +43,94 @@ Theorem C03_repaired_rejects_witnesses :
   Verify T true (the_stump c10) [lf 0] [8] [n25] = Err.
 Proof. exact (conj D2_repaired_rejects (conj D3_repaired_rejects D4_repaired_rejects)). Qed.
 Print Assumptions C03_repaired_rejects_witnesses.
+
+(** ** The unbounded soundness theorem and its corollaries (merged from C03b.v) *)
+
+(** the full statement of C03.v, with the leaf-count bound *)
+Theorem C03_sound : forall (s : slots term) hs ts pf idx,
+    atoms_only s ->
+    N.of_nat (length s) <= 2 ^ 63 ->
+    Verify term_ops true (the_stump (mk_ctx term_ops s)) hs ts pf = Ok idx ->
+    claims_true term_ops (mk_ctx term_ops s) ts hs = true.
+Proof. exact C03_sound_holds. Qed.
+Print Assumptions C03_sound.
+
+(** (a) the same for [Pollard.Verify] (which accepts an empty hash list without looking) *)
+Theorem C03_sound_pollard : forall (s : slots term) hs ts pf,
+    atoms_only s ->
+    N.of_nat (length s) <= 2 ^ 63 ->
+    hs <> [] ->
+    PollardVerify term_ops true (the_stump (mk_ctx term_ops s)) hs ts pf = Ok tt ->
+    claims_true term_ops (mk_ctx term_ops s) ts hs = true.
+Proof. exact C03_pollard_sound_holds. Qed.
+Print Assumptions C03_sound_pollard.
+
+(** (b) what [claims_true] says: claim by claim, a node of the forest at that position with
+    that hash (any hash type with a correct equality test) *)
+Theorem C03_claims_true_nodes : forall (H : Type) (HO : ops H) (c : ctx H) ts hs, ops_ok HO ->
+    claims_true HO c ts hs = true ->
+    length hs = length ts /\
+    forall j t h, nth_error ts j = Some t -> nth_error hs j = Some h ->
+      exists x, find_pos (crows c) (clay c) t = Some x /\ nhash x = h.
+Proof. exact @claims_true_nodes. Qed.
+Print Assumptions C03_claims_true_nodes.
+
+(** soundness read node by node *)
+Theorem C03_sound_nodes : forall (s : slots term) hs ts pf idx,
+    atoms_only s ->
+    N.of_nat (length s) <= 2 ^ 63 ->
+    Verify term_ops true (the_stump (mk_ctx term_ops s)) hs ts pf = Ok idx ->
+    forall j t h, nth_error ts j = Some t -> nth_error hs j = Some h ->
+      exists x, find_pos (crows (mk_ctx term_ops s)) (clay (mk_ctx term_ops s)) t = Some x /\
+                nhash x = h.
+Proof. exact C03_sound_nodes_holds. Qed.
+Print Assumptions C03_sound_nodes.
+
+(** ... the node being the node of the layout at its (row, offset) coordinate *)
+Theorem C03_sound_coordinates : forall (s : slots term) hs ts pf idx,
+    atoms_only s ->
+    N.of_nat (length s) <= 2 ^ 63 ->
+    Verify term_ops true (the_stump (mk_ctx term_ops s)) hs ts pf = Ok idx ->
+    forall j t h, nth_error ts j = Some t -> nth_error hs j = Some h ->
+      exists x, tnode term_ops s (nrow x) (noff x) = Some x /\
+                t = pos (rows_of (num_leaves s)) (nrow x) (noff x) /\ nhash x = h.
+Proof. exact C03_sound_coords. Qed.
+Print Assumptions C03_sound_coordinates.
+
+(** (c) rejection: a false claim is never accepted, whatever the proof hashes *)
+Theorem C03_false_claim_rejected : forall (s : slots term) hs ts pf idx,
+    atoms_only s ->
+    N.of_nat (length s) <= 2 ^ 63 ->
+    claims_true term_ops (mk_ctx term_ops s) ts hs = false ->
+    Verify term_ops true (the_stump (mk_ctx term_ops s)) hs ts pf <> Ok idx.
+Proof. exact C03_reject_holds. Qed.
+Print Assumptions C03_false_claim_rejected.
+
+Theorem C03_false_claim_rejected_named : forall (s : slots term) hs ts pf idx j t h,
+    atoms_only s ->
+    N.of_nat (length s) <= 2 ^ 63 ->
+    nth_error ts j = Some t -> nth_error hs j = Some h ->
+    (forall x, find_pos (crows (mk_ctx term_ops s)) (clay (mk_ctx term_ops s)) t = Some x ->
+               nhash x <> h) ->
+    Verify term_ops true (the_stump (mk_ctx term_ops s)) hs ts pf <> Ok idx.
+Proof. exact C03_reject_claim. Qed.
+Print Assumptions C03_false_claim_rejected_named.
+
+Theorem C03_false_claim_rejected_pollard : forall (s : slots term) hs ts pf,
+    atoms_only s ->
+    N.of_nat (length s) <= 2 ^ 63 ->
+    hs <> [] ->
+    claims_true term_ops (mk_ctx term_ops s) ts hs = false ->
+    PollardVerify term_ops true (the_stump (mk_ctx term_ops s)) hs ts pf <> Ok tt.
+Proof. exact C03_pollard_reject. Qed.
+Print Assumptions C03_false_claim_rejected_pollard.
+
+(** non-vacuity: a forest with dead slots and an empty root; an honest proof is accepted, the
+    theorem's hypotheses hold and its conclusion is the computed value *)
+Theorem C03_sound_nonvacuous :
+    atoms_only ls_ex /\ N.of_nat (length ls_ex) <= 2 ^ 63 /\
+    Verify term_ops true (the_stump (mk_ctx term_ops ls_ex))
+           [Atom 7; Atom 3] [6; 2] [Atom 4; Atom 1] = Ok [2%nat; 0%nat] /\
+    claims_true term_ops (mk_ctx term_ops ls_ex) [6; 2] [Atom 7; Atom 3] = true.
+Proof. exact (conj ls_ex_atoms (conj ls_ex_bound (conj ex_honest_accepted ex_honest_by_theorem))). Qed.
+Print Assumptions C03_sound_nonvacuous.
